@@ -873,9 +873,18 @@ pub fn generate(thorough: bool, seed: u64, out: &mut dyn Write) {
     // the inflater the model's `inflate` parameter is instantiated with is itself checked against
     // zlib on every run: streams from zlib's deflate (all levels / strategies) and corrupted ones
     crate::xinf::generate_n(if thorough { 1500 } else { 120 }, thorough, seed, out);
+    // where an index entry points (dat id, and offsets over the whole 35-bit range incl. >= 4 GiB,
+    // which no materialised dat file reaches): C01's direct `SqPackIndex::find_entry` cases, shared
+    let mut rng_idx = Rng::new(seed, "C02-idx");
+    for _ in 0..(if thorough { 2000 } else { 80 }) {
+        crate::c01::gen_idx(&mut rng_idx, out);
+    }
 }
 
 pub fn run(case: &str, input: &str) -> String {
+    if case.starts_with("idx ") {
+        return crate::c01::run(case, input);
+    }
     if case.starts_with("inflate ") || case.starts_with("garbage ") {
         // validation of the executable inflate model (Model/Inflate.lean) against zlib
         return crate::xinf::run(case, input);
